@@ -65,15 +65,21 @@ def main():
             run.oracle_counts[site] += 1
             run.count("oracle_fail.not_recorded_beyond_8_per_site", site)
     run.oracle_fail = _capped_fail
-    run.rule = ("helpers: exhaustive nested keys (depth/width per tier) over atoms {a,b,1,()} and all slices start/stop/step in -4..4|None on lengths 0..5; "
-                "programs: random straight-line programs of <=6 tensordict ops, eager vs torch.compile; a case is non-trivial if it is a distinct (helper,input) or program")
+    run.rule = ("helpers: exhaustive nested keys (depth/width per tier) over atoms {a,obs,1,()} and all slices start/stop/step in -4..4|None on lengths 0..5; "
+                "infer_size: every shape of length <=4 over {-2..3} x numel 0..12 + random (big ints, negative numel); _maybe_correct_neg_dim: dims -7..7 x ranks 0..4 x ndim None|0..5; "
+                "key calls: random lists/tuples of nested keys + 10 non-sequence objects, unravel_keys with 0..3 args; _check_keys: all ordered pairs of subsets of 5 keys + random 3-4 operand lists, strict and not; "
+                "_parse_to: every call with <=2 positionals over 24 values + every single keyword + random calls; Sequential key union: random module chains with selected out keys; "
+                "programs: fixed corpus + random straight-line programs of <=6 ops from ~190 tensordict ops on 5 input kinds, eager vs torch.compile; "
+                "a case is non-trivial if it is a distinct (helper,input) or program")
     run.trusted += [
-        "harness/py2lean.py translator (validated each run: generated Lean def vs the Python function on the whole slice grid)",
-        "SliceSpec.indices = transcription of CPython slice.indices (validated each run against slice.indices on the grid)",
-        "Model/Key.lean hand transcription of csrc/utils.cpp and of the Python fallbacks (validated each run against the C++ recompiled from the working tree and the Python branch forced by patching is_compiling)",
-        "torch.compile/dynamo and inductor are outside every model: program-level agreement is differential evidence only",
+        "harness/py2lean.py translator (validated each run: generated Lean defs of _slice_indices, infer_size_impl, _infer_size_impl, _maybe_correct_neg_dim vs the Python functions on their grids, error classes included; a division inside a condition is translated only when an earlier conjunct proves the divisor non-zero)",
+        "SliceSpec.indices = transcription of CPython slice.indices (validated each run against slice.indices on the grid; range(*indices) == seq[slice] checked element-wise)",
+        "Model/Key.lean hand transcription of csrc/utils.cpp, of the pybind11 overload dispatch and of the Python fallbacks (validated each run against the C++ recompiled from the working tree and the Python branch forced by patching is_compiling, exception classes included)",
+        "Model/CheckKeys.lean, Model/Compile.lean, Model/ParseTo.lean hand transcriptions of both branches of _check_keys / the Sequential key union / _parse_batch_size / _values_list / _parse_to (validated each run with is_compiling patched to each value; ParseTo also against torch._C._nn._parse_to itself)",
+        "torch.compile/dynamo and inductor are outside every model: program-level agreement is differential evidence only; three torch 2.14 dynamo bugs are excluded from the program oracle, each only while its torch-only reproduction (run first, c18_programs.TORCH_BUGS) still fails",
     ]
-    run.assumptions += ["program-level compiled==eager is tested, not proved (dynamo is runtime)"]
+    run.assumptions += ["program-level compiled==eager is tested, not proved (dynamo is runtime)",
+                        "a program whose two runs differ is reported only if it still differs in a fresh interpreter (dynamo keeps process-wide state that reset() does not clear)"]
 
     # 1. regenerate the translated helper
     import gen_tables
@@ -209,6 +215,7 @@ def main():
     import c18_checkkeys
     c18_checkkeys.check_keys(run)
     c18_checkkeys.seq_keys(run)
+    c18_checkkeys.prob_seq_keys(run)
 
     lap("check_keys+seq_keys")
     # 3b4. _parse_to: native parser vs its Python twin
